@@ -623,6 +623,9 @@ func c19Replay(c *report.Check, raw []byte) {
 	defer bk.close()
 	env := &c19Env{bk: bk}
 	res := env.run(r.Path)
+	if os.Getenv("KVSEQ_DEBUG") != "" {
+		fmt.Fprintln(os.Stderr, "replay classes:", res.Classes, "key:", res.Key)
+	}
 	if res.Viol != "" {
 		c.Violation(fmt.Sprintf("c19:%s:%s:%s:%s", r.Backend, r.Hash, res.Viol, strings.Join(levLabels(r.Path), ";")), res.What, r)
 	}
